@@ -166,7 +166,7 @@ func readerRegions(P *Program, an *boundsAn, p *Path, bufParam *ssa.Parameter, m
 	add := func(kind string, off, length lin, ins ssa.Instruction) {
 		regs = append(regs, bufRegion{kind, off, length, ins, ord})
 	}
-	secrets := map[ssa.Value]bool{}   // values that are DH / KEM secrets
+	secrets := map[ssa.Value]bool{}       // values that are DH / KEM secrets
 	decapsCT := map[ssa.Value]bufRegion{} // secret -> ciphertext region
 	absorbed := map[ssa.Value]bool{}
 	lastMac = -1
